@@ -189,6 +189,11 @@ func renderAttrs(as []kv) string {
 	return sb.String()
 }
 
+// trailer: what a serialiser may legally put after the end tag of the document element (XML 1.0 production [1]: Misc*).
+func trailer(st *Style) string {
+	return []string{"", "\n", "\r\n", "\n<!-- end -->\n"}[mod(st.Trailer, 4)]
+}
+
 func fmtTime(t time.Time, frac int) string {
 	t = t.UTC()
 	s := t.Format("2006-01-02T15:04:05")
@@ -341,7 +346,7 @@ func buildAuthnRequestXML(f *reqFields, st *Style) string {
 	if st.Optional&optScoping != 0 {
 		sb.WriteString(nl + in + "<" + ns.p + `Scoping ProxyCount="1"><` + ns.p + "RequesterID>https://proxy.example/sp</" + ns.p + "RequesterID></" + ns.p + "Scoping>")
 	}
-	sb.WriteString(nl + "</" + ns.p + "AuthnRequest>")
+	sb.WriteString(nl + "</" + ns.p + "AuthnRequest>" + trailer(st))
 	return sb.String()
 }
 
@@ -389,7 +394,7 @@ func buildLogoutRequestXML(f *logoutFields, st *Style) string {
 	for _, si := range f.SessionIndex {
 		sb.WriteString(nl + in + "<" + ns.p + "SessionIndex>" + xt(si) + "</" + ns.p + "SessionIndex>")
 	}
-	sb.WriteString(nl + "</" + ns.p + "LogoutRequest>")
+	sb.WriteString(nl + "</" + ns.p + "LogoutRequest>" + trailer(st))
 	return sb.String()
 }
 
@@ -468,7 +473,7 @@ func buildAttributeQueryXML(f *attrQueryFields, st *Style) (envelopeOpen, query,
 		open += "<" + sp + "Header/>" + nl
 	}
 	open += "<" + sp + "Body>" + nl
-	closeS := nl + "</" + sp + "Body>" + nl + "</" + sp + "Envelope>"
+	closeS := nl + "</" + sp + "Body>" + nl + "</" + sp + "Envelope>" + trailer(st)
 	q := sb.String()
 	if f.NoQuery {
 		q = ""
@@ -614,6 +619,11 @@ func (w *World) destination(m *MsgSpec, kind, issuer string) (string, bool) {
 		return w.IDPModel.Location(kind, w.IDPModel.Issuer(h, hdr)), true
 	case "foreign":
 		return "https://evil.example/SSO", true
+	case "double-slash":
+		if i := strings.LastIndex(adv, "/"); i > 8 {
+			return adv[:i] + "/" + adv[i:], true
+		}
+		return adv + "//", true
 	case "query":
 		return adv + "?x=1", true
 	case "bare-query":
@@ -1215,6 +1225,14 @@ func (w *World) encodeFrontChannel(t *Task, m *MsgSpec, sp *SPNode, s *Sent, xml
 				}
 				s.Params = bv
 			}
+		}
+		if m.Method == "POST-query" {
+			// the redirect-encoded message stays in the URL, but the request is a POST (empty form body)
+			s.Method = "POST"
+			s.ContentType = "application/x-www-form-urlencoded"
+			s.Body = []byte{}
+			w.notConformant(s, "redirect message sent with POST")
+			w.fire("tamper_post_with_query_message")
 		}
 		if m.Method == "POST-move" {
 			// cross-binding move: the redirect-encoded parameters are submitted as a POST form
